@@ -305,9 +305,9 @@ def _strip_comments(src):
     return "".join(out)
 
 
-def build_theories(targets=None, timeout=3000):
-    """Full .vo build of the hand-written theories (and generated files) through coq_makefile."""
-    with _lock("coqbuild"):
+def _makefile_current():
+    """(Re)generate Makefile.coq when the set of .v files changed (short critical section)."""
+    with _lock("coqmakefile"):
         files = []
         for root in ("theories", "generated"):
             d = os.path.join(COQ, root)
@@ -318,11 +318,22 @@ def build_theories(targets=None, timeout=3000):
         proj = [l for l in proj if l.startswith("-")]
         listing = "\n".join(proj + files) + "\n"
         lp = os.path.join(COQ, "_CoqProject.build")
-        if not os.path.exists(lp) or open(lp).read() != listing:
+        if not os.path.exists(lp) or open(lp).read() != listing or not os.path.exists(os.path.join(COQ, "Makefile.coq")):
             open(lp, "w").write(listing)
             rc, out, err = run(["coq_makefile", "-f", "_CoqProject.build", "-o", "Makefile.coq"], 120, cwd=COQ)
             if rc != 0:
                 raise HarnessError("coq_makefile failed: " + err)
+
+
+def build_theories(targets=None, timeout=3000):
+    """Full .vo build of the hand-written theories (and generated files) through coq_makefile.
+    With targets: only those (and what they depend on), under one lock per target so that checks of
+    different properties do not wait for each other."""
+    _makefile_current()
+    names = ["coqbuild_all"] if not targets else sorted("coqbuild_" + t.replace("/", "_") for t in targets)
+    with contextlib.ExitStack() as stack:
+        for n in names:
+            stack.enter_context(_lock(n))
         cmd = ["timeout", str(timeout), "make", "-f", "Makefile.coq", "-j%d" % NPROC]
         if targets:
             cmd += targets
